@@ -1,1 +1,31 @@
-fn main(){}
+// rs2v — translator from the Rust sources of bma400-rs (the subset listed in DESIGN.md §4.2)
+// to the Gallina model checked by the proofs under /verif/coq.
+//
+// usage: rs2v <repo/src dir> <out dir>
+//
+// Anything outside the supported subset stops the translation with
+//   rs2v: unsupported: <file>:<line>: <what>
+// and exit status 3; it is never skipped silently.
+mod db;
+mod emit;
+mod tr;
+
+use std::path::PathBuf;
+
+fn main() {
+    let args: Vec<String> = std::env::args().collect();
+    if args.len() != 3 {
+        eprintln!("usage: rs2v <repo/src> <outdir>");
+        std::process::exit(2);
+    }
+    let src = PathBuf::from(&args[1]);
+    let out = PathBuf::from(&args[2]);
+    let db = db::collect(&src);
+    emit::emit_all(&db, &out);
+}
+
+pub fn unsupported(file: &str, line: usize, what: &str) -> ! {
+    println!("rs2v: unsupported: {}:{}: {}", file, line, what);
+    eprintln!("rs2v: unsupported: {}:{}: {}", file, line, what);
+    std::process::exit(3);
+}
